@@ -64,10 +64,35 @@ type vhConn struct {
 	established bool  // response head handed to the client
 	ended       bool  // the client's reader has seen EOF/error or closed
 	lazySrv     bool  // server side learns of a break only at its next flush
+	marks       []vhMark // one per flush that put bytes on the wire: end offset in sent + virtual time
+	readOff     int      // bytes of sent the client has read
+	lateArmed   bool
+	endAt       time.Duration // virtual time at which the client's reader saw the end (valid once ended)
+	srvKnows    bool  // the server side has been told (reset/FIN arrived): its context is cancelled, writes fail
 	cutArmed    bool  // cut this connection at its next flush
 
 	wake    chan struct{}
 	scancel context.CancelFunc
+}
+
+// vhMark: bytes up to off were flushed at virtual time at.
+type vhMark struct {
+	off int
+	at  time.Duration
+}
+
+// LastReadFlushAt is the flush time of the latest flush whose bytes the client
+// has read completely (0, false if none). The transport delivers in order, so
+// everything flushed earlier on this connection has been read as well.
+func (cn *vhConn) LastReadFlushAt() (time.Duration, bool) {
+	var t time.Duration
+	ok := false
+	for _, m := range cn.marks {
+		if m.off <= cn.readOff {
+			t, ok = m.at, true
+		}
+	}
+	return t, ok
 }
 
 type vhLinkKey struct{ from, to string }
@@ -93,6 +118,8 @@ type vhNet struct {
 	LongDelays                            []time.Duration // candidates for an injected delay
 	Quiet                                 bool            // no tape-drawn faults
 	InFlight                              int             // requests between RoundTrip entry and return
+	PartLog                               [][2]time.Duration // intervals during which some link was partitioned (open interval: end = -1)
+	OutlivedBy                            int             // id of the newest stream connection during whose life an older one's server side was reset late
 
 	// one-shot scripted faults (set by scenario ops)
 	LoseNext  map[string]int           // path suffix -> number of responses to lose
@@ -129,6 +156,9 @@ func (n *vhNet) linkUp(from, to string) bool { return !n.down[vhLinkKey{from, to
 // link are reset; otherwise their data stalls until Heal (TCP retransmission)
 // or until the client gives up.
 func (n *vhNet) Partition(a, b string, bothWays, reset bool) {
+	if len(n.down) == 0 {
+		n.PartLog = append(n.PartLog, [2]time.Duration{n.c.S.Now(), -1})
+	}
 	n.down[vhLinkKey{a, b}] = true
 	if bothWays {
 		n.down[vhLinkKey{b, a}] = true
@@ -152,6 +182,7 @@ func (n *vhNet) Heal(a, b string) {
 	}
 	delete(n.down, vhLinkKey{a, b})
 	delete(n.down, vhLinkKey{b, a})
+	n.closePartLog()
 	for _, cn := range n.conns {
 		if !cn.ended {
 			cn.wakeReader()
@@ -159,11 +190,28 @@ func (n *vhNet) Heal(a, b string) {
 	}
 }
 
+func (n *vhNet) closePartLog() {
+	if k := len(n.PartLog); k > 0 && n.PartLog[k-1][1] < 0 && len(n.down) == 0 {
+		n.PartLog[k-1][1] = n.c.S.Now()
+	}
+}
+
+// PartitionedDuring reports whether any link was partitioned at some point of [from, to].
+func (n *vhNet) PartitionedDuring(from, to time.Duration) bool {
+	for _, iv := range n.PartLog {
+		if iv[0] <= to && (iv[1] < 0 || iv[1] >= from) {
+			return true
+		}
+	}
+	return false
+}
+
 func (n *vhNet) HealAll() {
 	if len(n.down) > 0 {
 		n.c.S.Fault("net.heal")
 	}
 	n.down = map[vhLinkKey]bool{}
+	n.closePartLog()
 	for _, cn := range n.conns {
 		if !cn.ended {
 			cn.wakeReader()
@@ -183,7 +231,7 @@ func (n *vhNet) NodeDown(node *simrt.Node) {
 		}
 		if cn.cliNode == node {
 			cn.cliGone = true
-			cn.scancel()
+			cn.tellServer()
 		}
 	}
 }
@@ -247,9 +295,64 @@ func (cn *vhConn) breakConn(err error) {
 		cn.broken = err
 	}
 	if !cn.lazySrv {
-		cn.scancel()
+		cn.tellServer()
+	} else {
+		cn.lateReset()
 	}
 	cn.wakeReader()
+}
+
+// lateReset: the server side of a half-open connection that never writes again
+// still learns eventually (TCP keepalive, a reset arriving late): after a
+// tape-chosen delay its request context is cancelled.
+func (cn *vhConn) lateReset() {
+	if cn.lateArmed || cn.srvKnows || cn.srvDone {
+		return
+	}
+	cn.lateArmed = true
+	S := cn.n.c.S
+	d := []time.Duration{3 * time.Second, 700 * time.Millisecond, 12 * time.Second, 45 * time.Second}[S.Choose(simrt.StNet, 4)]
+	S.Spawn("net-late-reset", nil, func() {
+		S.Sleep(d)
+		if !cn.srvKnows && !cn.srvDone {
+			if cn.stream {
+				S.Probe("halfopen_server_learns_by_keepalive")
+			}
+			S.Logf("http conn %d half-open: server side reset after %v", cn.id, d)
+			for _, o := range cn.n.conns {
+				if o != cn && o.from == cn.from && o.to == cn.to && o.stream && cn.stream && o.id > cn.id && o.established && !o.ended && o.broken == nil {
+					S.Probe("halfopen_old_handler_outlives_reconnect")
+					cn.n.OutlivedBy = o.id
+				}
+			}
+			cn.tellServer()
+		}
+	})
+}
+
+func (cn *vhConn) tellServer() {
+	cn.srvKnows = true
+	cn.scancel()
+}
+
+// clientLeaves: the client closed the body or gave up. Its FIN/RST reaches the
+// server at once unless the connection is half-open (lazySrv) or the
+// client->server link is partitioned; then the server learns at its next flush
+// over a healed link, as with TCP.
+func (cn *vhConn) clientLeaves() {
+	cn.cliGone = true
+	if cn.srvKnows {
+		return
+	}
+	if !cn.lazySrv && cn.n.linkUp(cn.from, cn.to) {
+		cn.tellServer()
+		return
+	}
+	cn.lateReset()
+	if cn.stream && !cn.srvDone {
+		cn.n.c.S.Probe("halfopen_client_left_silently")
+		cn.n.c.S.Logf("http conn %d half-open: client left, server not told", cn.id)
+	}
 }
 
 func (cn *vhConn) flush() {
@@ -258,8 +361,18 @@ func (cn *vhConn) flush() {
 	data := cn.pending
 	cn.pending = nil
 	if cn.broken != nil || cn.cliGone {
-		if cn.lazySrv {
-			cn.scancel()
+		if !cn.srvKnows && n.linkUp(cn.to, cn.from) && n.linkUp(cn.from, cn.to) {
+			if !cn.srvDone && cn.stream {
+				n.c.S.Probe("halfopen_server_learns_at_flush")
+				n.c.S.Logf("http conn %d half-open: server learns at flush", cn.id)
+				for _, o := range n.conns {
+					if o != cn && o.from == cn.from && o.to == cn.to && o.stream && o.id > cn.id && !o.srvDone {
+						n.c.S.Probe("halfopen_old_handler_outlives_reconnect")
+						break
+					}
+				}
+			}
+			cn.tellServer()
 		}
 		cn.wakeReader()
 		return
@@ -276,6 +389,9 @@ func (cn *vhConn) flush() {
 		k := n.c.S.Choose(simrt.StNet, len(data)+1)
 		cn.buf = append(cn.buf, data[:k]...)
 		cn.sent = append(cn.sent, data[:k]...)
+		if k > 0 {
+			cn.marks = append(cn.marks, vhMark{len(cn.sent), n.c.S.Now()})
+		}
 		n.c.S.Fault("http.disconnect")
 		n.c.S.Logf("http conn %d cut mid-body after %d of %d bytes", cn.id, k, len(data))
 		cn.breakConn(io.ErrUnexpectedEOF)
@@ -283,6 +399,9 @@ func (cn *vhConn) flush() {
 	}
 	cn.buf = append(cn.buf, data...)
 	cn.sent = append(cn.sent, data...)
+	if len(data) > 0 {
+		cn.marks = append(cn.marks, vhMark{len(cn.sent), n.c.S.Now()})
+	}
 	cn.wakeReader()
 }
 
@@ -307,7 +426,7 @@ func (w *vhWriter) Write(p []byte) (int, error) {
 	if !w.wrote {
 		w.WriteHeader(http.StatusOK)
 	}
-	if w.cn.cliGone || (w.cn.broken != nil && !w.cn.lazySrv) {
+	if w.cn.srvKnows {
 		return 0, &net.OpError{Op: "write", Net: "tcp", Err: syscall.EPIPE}
 	}
 	w.cn.pending = append(w.cn.pending, p...)
@@ -336,6 +455,7 @@ func (b *vhBody) end(err error) {
 		return
 	}
 	cn.ended = true
+	cn.endAt = cn.n.c.S.Now()
 	if cn.n.OnBodyEnd != nil {
 		cn.n.OnBodyEnd(cn, err)
 	}
@@ -352,8 +472,7 @@ func (b *vhBody) Read(p []byte) (int, error) {
 			return 0, errors.New("http: read on closed response body")
 		}
 		if err := vhCtxErr(b.ctx, b.cancel); err != nil {
-			cn.cliGone = true
-			cn.scancel()
+			cn.clientLeaves()
 			b.end(err)
 			return 0, err
 		}
@@ -361,6 +480,7 @@ func (b *vhBody) Read(p []byte) (int, error) {
 		if len(cn.buf) > 0 && up {
 			k := copy(p, cn.buf)
 			cn.buf = cn.buf[k:]
+			cn.readOff += k
 			return k, nil
 		}
 		if cn.broken != nil {
@@ -378,8 +498,7 @@ func (b *vhBody) Read(p []byte) (int, error) {
 func (b *vhBody) Close() error {
 	cn := b.cn
 	if !cn.cliGone {
-		cn.cliGone = true
-		cn.scancel()
+		cn.clientLeaves()
 	}
 	b.end(errors.New("closed"))
 	return nil
@@ -606,7 +725,7 @@ func (t *vhTransport) RoundTrip(req *http.Request) (*http.Response, error) {
 	for !cn.headDone && cn.broken == nil {
 		if err := vhCtxErr(ctx, cancel); err != nil {
 			cn.cliGone = true
-			cn.scancel()
+			cn.tellServer()
 			cn.ended = true
 			S.Fault("http.timeout")
 			return t.fail(req, err)
@@ -623,13 +742,13 @@ func (t *vhTransport) RoundTrip(req *http.Request) (*http.Response, error) {
 		}
 		err := n.hang(ctx, cancel, "read")
 		cn.cliGone = true
-		cn.scancel()
+		cn.tellServer()
 		cn.ended = true
 		return t.fail(req, err)
 	}
 	if err := n.sleepCtx(p.respLat, ctx, cancel); err != nil {
 		cn.cliGone = true
-		cn.scancel()
+		cn.tellServer()
 		cn.ended = true
 		S.Fault("http.timeout")
 		return t.fail(req, err)
